@@ -111,6 +111,77 @@ theorem C20_contains_iff (H : HashFn) (dbg : Bool) (f : BloomFilter) (data : Byt
     | cons _ _ => rfl
   simp [Spec.Bip37Bloom.contains, this, positions]
 
+/-! ## order of insertion is irrelevant -/
+
+/-- **Insertion order is irrelevant.**  Adding `a` then `b`, or `b` then `a`, succeeds either way and
+    yields filters of the same length, function count and tweak whose bit fields agree at every bit
+    index — for every filter, hash function, tweak and profile. -/
+theorem C20_add_commutes (H : HashFn) (dbg : Bool) (f : BloomFilter) (a b : Bytes)
+    (hl : f.filter.length < 2 ^ 29) :
+    ∃ fab fba, addAll H dbg f [a, b] = .ok fab ∧ addAll H dbg f [b, a] = .ok fba ∧
+      fab.filter.length = fba.filter.length ∧ fab.numHashFuncs = fba.numHashFuncs ∧
+      fab.tweak = fba.tweak ∧ ∀ j, getBit fab.filter j = getBit fba.filter j := by
+  have la := insert_length H f.filter f.numHashFuncs f.tweak a
+  have lb := insert_length H f.filter f.numHashFuncs f.tweak b
+  refine ⟨{ f with filter := (Spec.Bip37Bloom.insert H (Spec.Bip37Bloom.insert H f.filter f.numHashFuncs f.tweak a) f.numHashFuncs f.tweak b) },
+          { f with filter := (Spec.Bip37Bloom.insert H (Spec.Bip37Bloom.insert H f.filter f.numHashFuncs f.tweak b) f.numHashFuncs f.tweak a) },
+          ?_, ?_, ?_, rfl, rfl, ?_⟩
+  · simp only [addAll]
+    rw [add_eq_spec H dbg f a hl]
+    simp only
+    rw [add_eq_spec H dbg _ b (by simp only [la]; exact hl)]
+  · simp only [addAll]
+    rw [add_eq_spec H dbg f b hl]
+    simp only
+    rw [add_eq_spec H dbg _ a (by simp only [lb]; exact hl)]
+  · simp only [insert_length]
+  · intro j
+    by_cases h0 : 0 < f.filter.length
+    · simp only
+      rw [getBit_insert H _ _ _ b j (by rw [la]; exact h0), getBit_insert H _ _ _ a j h0,
+          getBit_insert H _ _ _ a j (by rw [lb]; exact h0), getBit_insert H _ _ _ b j h0, la, lb]
+      cases getBit f.filter j <;> cases decide (j ∈ positions H (8 * f.filter.length) f.numHashFuncs f.tweak a)
+        <;> cases decide (j ∈ positions H (8 * f.filter.length) f.numHashFuncs f.tweak b) <;> rfl
+    · have : f.filter = [] := by
+        cases hf : f.filter with
+        | nil => rfl
+        | cons _ _ => simp [hf] at h0
+      obtain ⟨flt, n, t⟩ := f
+      simp only at this
+      subst this
+      simp [Spec.Bip37Bloom.insert]
+
+/-- consequently no query can tell the two insertion orders apart -/
+theorem C20_add_commutes_queries (H : HashFn) (dbg : Bool) (f fab fba : BloomFilter) (a b q : Bytes)
+    (hl : f.filter.length < 2 ^ 29)
+    (hab : addAll H dbg f [a, b] = .ok fab) (hba : addAll H dbg f [b, a] = .ok fba) :
+    contains H dbg fab q = contains H dbg fba q := by
+  obtain ⟨x, y, hx, hy, h1, h2, h3, h4⟩ := C20_add_commutes H dbg f a b hl
+  rw [hab] at hx; rw [hba] at hy
+  injection hx with hx; injection hy with hy
+  subst hx; subst hy
+  have lab : fab.filter.length < 2 ^ 29 := by
+    have : fab.filter.length = f.filter.length := by
+      simp only [addAll] at hab
+      rw [add_eq_spec H dbg f a hl] at hab
+      simp only at hab
+      rw [add_eq_spec H dbg _ b (by simp only [insert_length]; exact hl)] at hab
+      injection hab with hab
+      subst hab
+      simp only [insert_length]
+    omega
+  rw [contains_eq_spec H dbg fab q lab, contains_eq_spec H dbg fba q (by rw [← h1]; exact lab)]
+  congr 1
+  unfold Spec.Bip37Bloom.contains
+  have he : fab.filter.isEmpty = fba.filter.isEmpty := by
+    cases h5 : fab.filter <;> cases h6 : fba.filter <;> simp [h5, h6] at h1 ⊢
+  rw [he, h1, h2, h3]
+  split
+  · rfl
+  · apply List.all_congr rfl
+    intro p
+    exact h4 p
+
 /-! ## no panic -/
 
 /-- **No panic** in `add`, `contains`, `validate` for every filter (empty ones included), every
